@@ -2,8 +2,6 @@ package main
 
 import (
 	"fmt"
-	"strings"
-	"time"
 
 	"verifsim/parsersim"
 )
@@ -11,126 +9,45 @@ import (
 // C16: MaxExpressions bounds every parse. Parser world; the budget is a
 // logical deadline injected at every expression tick of a recorded execution.
 
-type pParams struct {
-	grammars int
-	inputs   int
-	optSets  int
-	enumMax  int
-}
-
-func c16Tier(tier string) pParams {
-	if tier == "thorough" {
-		return pParams{grammars: 320, inputs: 8, optSets: 3, enumMax: 400}
-	}
-	return pParams{grammars: 32, inputs: 4, optSets: 2, enumMax: 160}
-}
-
-func runC16(tier string) int {
-	start := time.Now()
-	seed := envSeed()
-	p := c16Tier(tier)
-	sc := newScratch("c16")
-	_, pigeon := buildPigeon(sc)
-	r := newRng(seed, hashLabel("c16"))
-	var specs []*genParser
-	for i := 0; i < p.grammars; i++ {
-		specs = append(specs, drawSpec(r, fmt.Sprintf("p%03d", i), specBias{nullableLoops: 55, leftRec: 12, states: 45, preds: 60, actions: 80, throws: 30, optimized: 30, display: 10, unicode: 40}))
-	}
-	pw := buildParserWorld(sc, pigeon, specs, false)
-	rep := newReporter("C16")
-
-	var reqs []*parsersim.Request
-	var owner []*genParser
-	for _, gp := range pw.parsers {
-		ins := drawInputs(r, gp.G, p.inputs, 24)
-		for ii, in := range ins {
+var propC16 = &pProp{
+	id:     "C16",
+	level:  "fault_enumeration",
+	rule:   "one evaluation = one simulated Parse call of a real generated parser (kernel code blocks incl. re-entrant parses, simulated pool); per (grammar, input, option set) case the un-cancelled execution is recorded under a large budget and then re-executed with MaxExpressions(n) for every n in [1, N+1] (N = expressions of the reference; sampled above the enumeration bound), each bounded run being compared with the reference: identical when the budget suffices, otherwise nil value, the budget error last, earlier errors a prefix, history exactly the reference events up to tick n, ExprCnt <= n+1, and return within (n+2)*C(G) instrumentation steps; plus runs with a reused Stats value whose count is already beyond the budget; distinct_nontrivial = distinct (grammar, input, options) cases in which at least one bounded run was executed",
+	assume: []string{"ExprCnt as reported through the Statistics option is the parser's clock; when the caller passes no Statistics the ticks are calibrated by a twin run that only adds that option; variants without Statistics (-optimize-parser) are checked with the prefix/monotonicity relation only", "C(G) = 400 + 8*(widest expression) + 40*(state keys+4) steps per expression is generous: the largest observed ratio is reported as max_steps_per_expr"},
+	bias:   specBias{nullableLoops: 55, leftRec: 12, states: 45, preds: 60, actions: 80, throws: 30, optimized: 30, display: 10, unicode: 40},
+	tier: func(tier string) pParams {
+		if tier == "thorough" {
+			return pParams{grammars: 480, inputs: 8, optSets: 3, enumMax: 400}
+		}
+		return pParams{grammars: 64, inputs: 4, optSets: 2, enumMax: 160}
+	},
+	mkReqs: func(r *rng, gp *genParser, p pParams) []*parsersim.Request {
+		var reqs []*parsersim.Request
+		for ii, in := range drawInputs(r, gp.G, p.inputs, 24) {
 			for k := 0; k < p.optSets; k++ {
 				o := drawOpts(r, gp, 45, 12)
 				o.UseReader = false
-				req := &parsersim.Request{ID: fmt.Sprintf("c16-%s-i%d-o%d", gp.Name, ii, k), Kind: "c16", Parser: gp.Name,
-					Call: parsersim.Call{Input: in, Opts: o, Plan: drawPlan(r, gp.HasState)},
-					Pool: drawPool(r, false), Seed: r.u64(), RefBudget: uint64(400 + r.intn(1200)), EnumMax: p.enumMax}
-				reqs = append(reqs, req)
-				owner = append(owner, gp)
-			}
-		}
-	}
-	outs := runParserCases(pw, reqs, 120*time.Second, goEnv())
-
-	runs, cases := 0, 0
-	distinct := map[string]bool{}
-	var samples []any
-	nviol := 0
-	for i, o := range outs {
-		gp := owner[i]
-		cases++
-		if o.Status != "ok" {
-			// the driver itself hung or died: the step cap should have prevented that
-			v := &violation{Property: "C16", Class: "driver-" + o.Status, Message: fmt.Sprintf("the simulation child %s while running %s: %s", o.Status, reqs[i].ID, firstLine(lastFatal(o.Detail))),
-				Attrs: map[string]string{"class": "driver-" + o.Status, "dedupe": "driver-" + o.Status}, Seed: seed, Case: reqs[i].ID, Kind: "parser",
-				Replay: &parserReplay{Grammar: gp.G, Text: gp.Text, Flags: gp.Flags, Request: reqs[i], Expected: "driver-" + o.Status}}
-			rep.add(v)
-			continue
-		}
-		runs += o.Resp.Runs
-		if o.Resp.Stats["bounded_runs"] > 0 {
-			distinct[fmt.Sprintf("%s|%q|%v", gp.Text, reqs[i].Call.Input, reqs[i].Call.Opts)] = true
-		}
-		if len(samples) < 4 && i%(len(outs)/4+1) == 0 {
-			samples = append(samples, map[string]any{"case": o.Resp.Sample, "grammar": specSummary(gp)["grammar"]})
-		}
-		seenClass := map[string]bool{}
-		for _, v := range o.Resp.Violations {
-			nviol++
-			if seenClass[v.Class] {
-				continue
-			}
-			seenClass[v.Class] = true
-			attrs := v.Attrs
-			if attrs == nil {
-				attrs = map[string]string{}
-			}
-			attrs["nullable_loop"] = fmt.Sprint(gp.G.NullableLoops())
-			attrs["dedupe"] = v.Class + "|" + attrs["memoize"] + "|" + attrs["recover"] + "|" + attrs["optimized"]
-			pv := &violation{Property: "C16", Class: v.Class, Message: v.Msg, Attrs: attrs, Seed: seed, Case: reqs[i].ID, Kind: "parser"}
-			if rep.classify(pv) == "" && len(rep.fresh) < 6 {
-				// unknown: confirm alone, minimise
-				mreq, mv := confirmAndMinimise(pw, *reqs[i], v, goEnv())
-				if mreq == nil {
-					fmt.Printf("NOTE: C16 %s in %s did not reproduce in a fresh process; dropped\n", v.Class, reqs[i].ID)
-					continue
+				if r.chance(1, 3) {
+					o.Stats = false // the parser's own default Stats value is the clock
 				}
-				pv.Message = mv.Msg + fmt.Sprintf(" [grammar %s flags %v input %q opts %s]", strings.TrimSpace(specSummary(gp)["grammar"].(string)), gp.Flags, mreq.Call.Input, mustJSON(mreq.Call.Opts))
-				pv.Replay = &parserReplay{Grammar: gp.G, Text: gp.Text, Flags: gp.Flags, Request: mreq, Expected: v.Class}
-			} else {
-				pv.Replay = &parserReplay{Grammar: gp.G, Text: gp.Text, Flags: gp.Flags, Request: reqs[i], Expected: v.Class}
+				plan := drawPlan(r, gp.HasState)
+				if r.chance(1, 3) {
+					plan.NestedPct = 50
+				}
+				reqs = append(reqs, &parsersim.Request{ID: fmt.Sprintf("c16-%s-i%d-o%d", gp.Name, ii, k), Kind: "c16", Parser: gp.Name,
+					Call: parsersim.Call{Input: in, Opts: o, Plan: plan},
+					Pool: drawPool(r, false), Seed: r.u64(), RefBudget: uint64(400 + r.intn(1200)), EnumMax: p.enumMax})
 			}
-			rep.add(pv)
 		}
-	}
-	stats := summariseStats(outs)
-	wall := since(start)
-	ev := &evidence{PropertyID: "C16", Tier: tier, Seed: int64(seed), Level: "fault_enumeration", WallS: wall, Violations: len(rep.fresh),
-		Coverage: map[string]any{
-			"evaluations":         runs,
-			"distinct_nontrivial": len(distinct),
-			"rule":                "one evaluation = one simulated Parse call of a real generated parser (kernel code blocks, simulated pool); per (grammar, input, option set) case the un-cancelled execution is recorded under a large budget and then re-executed with MaxExpressions(n) for every n in [1, N+1] (N = expressions of the reference; sampled above the enumeration bound), each bounded run being compared with the reference: identical when the budget suffices, otherwise nil value, the budget error last, earlier errors a prefix, history exactly the reference events up to tick n, ExprCnt <= n+1, and return within (n+2)*C(G) instrumentation steps; distinct_nontrivial = distinct (grammar, input, options) cases in which at least one bounded run was executed",
-			"samples":             samples,
-			"cases":               cases,
-			"grammars":            len(pw.parsers),
-			"stats":               stats,
-			"simulated_time_ticks": stats["bounded_runs"],
-			"runs_per_hour":       perHour(runs, wall),
-			"fault_kinds":         map[string]int{"deadline_at_tick": stats["bounded_runs"], "exhausted": stats["exhausted_runs"]},
-			"violations_before_dedup": nviol,
-			"known_findings_seen": rep.known,
-			"instrumentation":     map[string]any{"map_range_sites": len(pw.rewrite.Sites), "steps_inserted": pw.rewrite.Steps, "sync_imports_replaced": pw.rewrite.SyncImports},
-			"components":          map[string]any{"real": []string{"pigeon (front-end, builder, goimports) generating each parser", "the complete generated parser runtime"}, "stub": []string{"user code blocks (kernel)", "sync.Pool (simsync)", "map iteration order (ascending)"}},
-		},
-		Assumptions: []string{"ExprCnt as reported through the Statistics option is the parser's clock; variants without Statistics (-optimize-parser) are checked with the prefix/monotonicity relation only", "C(G) = 400 + 8*(widest expression) + 40*(state keys+4) steps per expression is generous: the largest observed ratio is reported as max_steps_per_expr"},
-	}
-	writeEvidence(ev)
-	code := rep.finish()
-	fmt.Printf("C16 %s: %d grammars, %d cases, %d simulated parses, %d violations before dedup, %.1fs\n", tier, len(pw.parsers), cases, runs, nviol, wall)
-	return code
+		return reqs
+	},
+	attrs: func(gp *genParser, req *parsersim.Request, v *parsersim.Violation, attrs map[string]string) {
+		attrs["nullable_loop"] = fmt.Sprint(gp.G.NullableLoops())
+	},
+	nontriv: func(o *parsersim.Response) bool { return o.Stats["bounded_runs"] > 0 },
+	faults: func(st map[string]int) map[string]int {
+		return map[string]int{"deadline_at_tick": st["bounded_runs"], "deadline_that_exhausted": st["exhausted_runs"], "reused_stats_beyond_budget": st["reused_stats_runs"], "reentrant_parse_in_action": st["reentrant_parses_in_reference_runs"]}
+	},
 }
+
+func runC16(tier string) int { return runParserProp(propC16, tier) }
